@@ -7,16 +7,18 @@ EXTENDS EngineObs, Json, IOUtils
 
 Trace  == ndJsonDeserialize(IOEnv.VERIF_TRACE)
 
-VARIABLE l
-tvars == <<ovars, l>>
+VARIABLES l,      \* next line
+          skip,   \* the current trace was rejected: ignore its remaining lines
+          errs    \* rejections so far: <<line number, rule>>
+tvars == <<ovars, l, skip, errs>>
 
-\* every trace starts with a Reset line that carries the state map (field smdef) the
-\* implementation was running with (TB binding: dumped from the Go StateMap)
-TraceInit == l = 1 /\ ObsInit(Trace[1].smdef, Trace[1].smdefs, Trace[1].a = 1)
+\* every trace starts with a Reset line that carries the state maps (fields smdef,
+\* smdefs) the two endpoints were running with (TB binding: dumped from the Go StateMap)
+TraceInit == /\ l = 1 /\ skip = FALSE /\ errs = <<>>
+             /\ ObsInit(Trace[1].smdef, Trace[1].smdefs, Trace[1].a = 1)
 
 Step(e) ==
-    CASE e.ev = "Reset"    -> ObsReset(e.smdef, e.smdefs, e.a = 1)
-      [] e.ev = "State"    -> EvState(e.ep, e.s1, e.t)
+    CASE e.ev = "State"    -> EvState(e.ep, e.s1, e.t)
       [] e.ev = "Trans"    -> EvTrans(e.ep, e.mt, e.s1, e.s2, e.t)
       [] e.ev = "TransErr" -> EvTransErr(e.ep, e.mt, e.s1, e.t)
       [] e.ev = "Enq"      -> EvEnq(e.ep, e.h, e.mt, e.len, e.g)
@@ -37,15 +39,25 @@ Step(e) ==
       [] e.ev = "End"      -> EvEnd(e.ep, e.s1)
       [] OTHER             -> Fail("unknown event " \o e.ev)
 
+\* A rejected line ends the judgement of its trace only: the rule is recorded
+\* and the remaining lines up to the next Reset are skipped, so one TLC run
+\* judges every trace of the file.
 TraceNext ==
     /\ l <= Len(Trace)
-    /\ obsErr = "none"
     /\ l' = l + 1
-    /\ Step(Trace[l])
+    /\ LET e == Trace[l] IN
+         IF e.ev = "Reset"
+           THEN ObsReset(e.smdef, e.smdefs, e.a = 1) /\ skip' = FALSE /\ UNCHANGED errs
+         ELSE IF skip
+           THEN UNCHANGED <<ovars, skip, errs>>
+         ELSE /\ Step(e)
+              /\ skip' = (obsErr' # "none")
+              /\ errs' = IF obsErr' # "none" THEN Append(errs, <<l, obsErr'>>) ELSE errs
 
 TraceSpec == TraceInit /\ [][TraceNext]_tvars
 
-\* every line was consumed (or the monitor stopped at the first rejected line)
-TraceAccepted == TLCGet("stats").diameter = Len(Trace) + 1 \/ TRUE
-AllConsumed == (l = Len(Trace) + 1) \/ obsErr # "none" \/ ENABLED TraceNext
+\* reported once, when every line has been consumed
+Report == (l = Len(Trace) + 1) => PrintT(<<"REJECTS", ToJson(errs)>>)
+\* all lines consumed (checked as a postcondition on the search depth)
+AllConsumed == TLCGet("stats").diameter = Len(Trace) + 1
 =============================================================================
